@@ -66,7 +66,8 @@ partial def parseIdxArg (s : String) : Option IdxArg :=
 
 def parseRawIdx (s : String) : Option Index :=
   match s.splitOn ":" with
-  | [h, v, l] => some ⟨h == "1", v.toInt!, l.toNat!⟩
+  | [h, v, l] => some ⟨h == "1", v.toInt!, l.toNat!, false⟩
+  | [h, v, l, sc] => some ⟨h == "1", v.toInt!, l.toNat!, sc == "1"⟩
   | _ => none
 
 def hasNonConst (args : List IdxArg) : Bool := args.any fun a => a.c.isNone
@@ -115,7 +116,8 @@ def typingOps (op : String) (a : List String) : Option String :=
     pure (if hasInrange ix then "skip" else showR (gepAsm stdEnv e s ix))
   | "gep.spec", e :: s :: idx => do
     let e ← tyArg e; let s ← tyArg s; let ix ← Gep.mapM? parseIdxArg idx
-    pure (match Gep.LLVMSpec.gepType stdEnv e s ix with | some t => outHex (tyString t) | none => "illtyped")
+    pure (if !Gep.LLVMSpec.vectorOperandsAgree s ix then "illtyped" else
+      match Gep.LLVMSpec.gepType stdEnv e s ix with | some t => outHex (tyString t) | none => "illtyped")
   | "gep.ok", e :: s :: rest => do
     let e ← tyArg e; let s ← tyArg s; let ix ← Gep.mapM? parseIdxArg rest.dropLast
     let want := rest.getLast!
